@@ -899,7 +899,7 @@ pub fn pattern_condition_family(nm: &Names) -> Vec<F> {
 /// variable (before / after it), and once more outside the scope (bare or under another quantifier), in both orders.
 /// What is computed inside a restricted scope must never be served outside it. Uses %d%, propositions a (and b).
 pub fn restricted_scope_duplicates(nm: &Names) -> Vec<F> {
-    let mut psis = vec!["(AG a)", "(EF (~a))", "(AX a)", "(EG a)"];
+    let mut psis = vec!["(AG a)", "(EF (~a))", "(AX a)", "(EG a)", "(!{z}: AG EF {z})", "(!{z}: AX {z})"];
     if nm.props.len() >= 2 {
         psis.push("(a EU b)");
         psis.push("(EF (a & b))");
